@@ -1,0 +1,160 @@
+//go:build verif
+
+package decimal128
+
+// Thin exported wrappers around unexported kernels, compiled only with the
+// "verif" build tag. They exist so that the verification harness in /verif can
+// drive the reduction/rounding kernel and the multi-word integer primitives
+// directly (complete enumeration of the rounding decision table; adversarial
+// word patterns for the division routines). Nothing here changes behaviour.
+
+// VerifReduce runs reduce64 / reduce128 / reduce192 / reduce256 (selected by
+// the number of words in sig, little-endian) and returns the resulting
+// significand words and biased exponent.
+func VerifReduce(mode RoundingMode, neg bool, sig []uint64, exp int16, trunc int8) (lo, hi uint64, rexp int16) {
+	var r uint128
+	switch len(sig) {
+	case 1:
+		r, rexp = mode.reduce64(neg, sig[0], exp)
+	case 2:
+		r, rexp = mode.reduce128(neg, uint128{sig[0], sig[1]}, exp, trunc)
+	case 3:
+		r, rexp = mode.reduce192(neg, uint192{sig[0], sig[1], sig[2]}, exp, trunc)
+	case 4:
+		r, rexp = mode.reduce256(neg, uint256{sig[0], sig[1], sig[2], sig[3]}, exp, trunc)
+	default:
+		panic("VerifReduce: 1..4 words")
+	}
+
+	return r[0], r[1], rexp
+}
+
+// VerifU128 applies a named uint128 primitive and returns the result words
+// (little-endian), followed by the remainder words where there is one.
+func VerifU128(op string, a, b [2]uint64, k uint64) []uint64 {
+	x, y := uint128(a), uint128(b)
+
+	switch op {
+	case "mul":
+		r := x.mul(y)
+		return r[:]
+	case "mul64":
+		r := x.mul64(k)
+		return r[:]
+	case "mul1e38":
+		r := x.mul1e38()
+		return r[:]
+	case "div":
+		q, r := x.div(y)
+		return []uint64{q[0], q[1], r[0], r[1]}
+	case "div10":
+		q, r := x.div10()
+		return []uint64{q[0], q[1], r}
+	case "div100":
+		q, r := x.div100()
+		return []uint64{q[0], q[1], r}
+	case "div1000":
+		q, r := x.div1000()
+		return []uint64{q[0], q[1], r}
+	case "div10000":
+		q, r := x.div10000()
+		return []uint64{q[0], q[1], r}
+	case "div1e8":
+		q, r := x.div1e8()
+		return []uint64{q[0], q[1], r}
+	case "div1e19":
+		q, r := x.div1e19()
+		return []uint64{q[0], q[1], r}
+	case "log10":
+		return []uint64{uint64(x.log10())}
+	case "lsh":
+		r := x.lsh(uint(k))
+		return r[:]
+	case "rsh":
+		r := x.rsh(uint(k))
+		return r[:]
+	case "add":
+		r := x.add(y)
+		return r[:]
+	case "sub":
+		r, brw := x.sub(y)
+		return []uint64{r[0], r[1], uint64(brw)}
+	}
+
+	panic("VerifU128: unknown op " + op)
+}
+
+// VerifU192 applies a named uint192 primitive.
+func VerifU192(op string, a, b [3]uint64, k uint64) []uint64 {
+	x, y := uint192(a), uint192(b)
+
+	switch op {
+	case "mul":
+		r := x.mul(y)
+		return r[:]
+	case "mul64":
+		r := x.mul64(k)
+		return r[:]
+	case "div":
+		q, r := x.div(y)
+		return []uint64{q[0], q[1], q[2], r[0], r[1], r[2]}
+	case "div10":
+		q, r := x.div10()
+		return []uint64{q[0], q[1], q[2], r}
+	case "div10000":
+		q, r := x.div10000()
+		return []uint64{q[0], q[1], q[2], r}
+	case "div1e8":
+		q, r := x.div1e8()
+		return []uint64{q[0], q[1], q[2], r}
+	case "div1e19":
+		q, r := x.div1e19()
+		return []uint64{q[0], q[1], q[2], r}
+	case "log10":
+		return []uint64{uint64(x.log10())}
+	case "msd2":
+		return []uint64{uint64(x.msd2())}
+	case "lsh":
+		r := x.lsh(uint(k))
+		return r[:]
+	case "rsh":
+		r := x.rsh(uint(k))
+		return r[:]
+	case "pow2":
+		r := x.pow2()
+		return r[:]
+	}
+
+	panic("VerifU192: unknown op " + op)
+}
+
+// VerifU256 applies a named uint256 primitive.
+func VerifU256(op string, a [4]uint64, k uint64) []uint64 {
+	x := uint256(a)
+
+	switch op {
+	case "mul64":
+		r := x.mul64(k)
+		return r[:]
+	case "div10":
+		q, r := x.div10()
+		return []uint64{q[0], q[1], q[2], q[3], r}
+	case "div10000":
+		q, r := x.div10000()
+		return []uint64{q[0], q[1], q[2], q[3], r}
+	case "div1e8":
+		q, r := x.div1e8()
+		return []uint64{q[0], q[1], q[2], q[3], r}
+	case "div1e19":
+		q, r := x.div1e19()
+		return []uint64{q[0], q[1], q[2], q[3], r}
+	case "lsh":
+		r := x.lsh(uint(k))
+		return r[:]
+	case "rsh":
+		r := x.rsh(uint(k))
+		return r[:]
+	}
+
+	panic("VerifU256: unknown op " + op)
+}
